@@ -146,7 +146,7 @@ def attrs_before(src, pos, what):
 def coq_string(s):
     if not all(32 <= ord(c) < 127 for c in s):
         raise TranslateError(f"string literal with a non printable-ASCII character: {s!r}")
-    return '"' + s.replace('"', '""') + '"'
+    return '(T "' + s.replace('"', '""') + '")'
 
 
 def rust_str_lit(tok, what):
@@ -301,10 +301,10 @@ def parse_value_expr(e, cty, what):
     """A Default::default() initialiser -> Coq cval text."""
     if cty == "TStr":
         if e == "String::new()":
-            return 'VStr ""'
+            return 'VStr []'
         m = re.fullmatch(r'("[^"\\]*")\.(?:into|to_owned|to_string)\(\)', e) or re.fullmatch(r'String::from\(("[^"\\]*")\)', e)
         if m:
-            return "VStr " + coq_string(rust_str_lit(m.group(1), what))
+            return "VStr " + (coq_string(rust_str_lit(m.group(1), what)) if rust_str_lit(m.group(1), what) else "[]")
     elif cty == "TBool":
         if e in ("true", "false"):
             return "VBool " + e
@@ -524,7 +524,7 @@ def parse_template(rel):
             raise TranslateError(f"{rel}:{ln}: not a `key = value` line: {s!r}")
         k, v = m.group(1), m.group(2).strip()
         if re.fullmatch(r'"[^"\\]*"', v):
-            cv = "VStr " + coq_string(v[1:-1])
+            cv = "VStr " + (coq_string(v[1:-1]) if v[1:-1] else "[]")
         elif re.fullmatch(r"[0-9]+", v):
             cv = f"VNum {int(v)}"
         elif v in ("true", "false"):
@@ -546,12 +546,12 @@ def coq_list(items, indent="  "):
 
 def emit_descr(prefix, fields, serde_default, defaults, opts, patch):
     L = []
-    L.append(f"Definition {prefix}fields : list fieldd :=")
+    L.append(f"Definition {prefix}fields : list fieldd := Eval vm_compute in")
     L.append("  " + coq_list([f"mk_field {coq_string(n)} {ty} ({defaults[n]}) {'true' if skip else 'false'}" for n, ty, skip in fields]) + ".")
     L.append(f"Definition {prefix}serde_default : bool := {'true' if serde_default else 'false'}.")
-    L.append(f"Definition {prefix}opts : list optd :=")
+    L.append(f"Definition {prefix}opts : list optd := Eval vm_compute in")
     L.append("  " + coq_list([f"mk_opt {coq_string(n)} ({k})" for n, k in opts]) + ".")
-    L.append(f"Definition {prefix}patch : list pstmt :=")
+    L.append(f"Definition {prefix}patch : list pstmt := Eval vm_compute in")
     L.append("  " + coq_list([f"{k} {coq_string(c)} {coq_string(o)}" for k, c, o in patch]) + ".")
     L.append(f"Definition {prefix}descr : descr := mk_descr {prefix}fields {prefix}serde_default {prefix}opts {prefix}patch.")
     L.append("")
@@ -587,16 +587,15 @@ def generate():
 
     L = ["(* GENERATED by tools/translate_config.py from /repo/teos/src/{config.rs,cli_config.rs,conf_template.toml}",
          "   — do not edit.  Data only: coq/theories/Config.v interprets it. *)",
-         "From Coq Require Import String List NArith.",
+         "From Coq Require Import Ascii String List NArith.",
          "From TeosModel Require Import ConfigSyntax.",
          "Import ListNotations.",
-         "Local Open Scope string_scope.",
          "Local Open Scope N_scope.",
          "",
          "(* ---- teosd: struct Config (+ serde attributes), Config::default(), struct Opt, patch_with_options ---- *)"]
     L += emit_descr("teosd_", fields, serde_default, defaults, opts, patch)
     L.append("(* get_auth_method: match (is_empty of the three fields) { rows, first match wins } *)")
-    L.append("Definition auth_scrutinee : list string := " + coq_list([coq_string(s) for s in scrut]) + ".")
+    L.append("Definition auth_scrutinee : list text := Eval vm_compute in " + coq_list([coq_string(s) for s in scrut]) + ".")
     L.append("Definition auth_rows : list (list (option bool) * auth) :=")
     L.append("  " + coq_list(["([" + "; ".join("None" if c == "_" else f"Some {c}" for c in comps) + f"], {a})" for comps, a in rows]) + ".")
     L.append("")
@@ -611,7 +610,7 @@ def generate():
             vs.append(f"VPortMatch {coq_string(s[1])} [" + "; ".join(f"({coq_string(n)}, {p})" for n, p in s[2]) + f"] {coq_string(s[3])}")
         else:
             vs.append(f"VPortIfUnset {coq_string(s[1])} {s[2]}")
-    L.append("Definition verify_stmts : list vstmt :=")
+    L.append("Definition verify_stmts : list vstmt := Eval vm_compute in")
     L.append("  " + coq_list(vs) + ".")
     L.append("Definition teosd_vdescr : vdescr := mk_vdescr auth_scrutinee auth_rows verify_stmts.")
     L.append("")
@@ -619,11 +618,11 @@ def generate():
     L.append("   translator); main.rs / cli.rs call from_file, patch_with_options, verify in this order (checked). *)")
     L.append("")
     L.append("(* conf_template.toml: the documented file *)")
-    L.append("Definition template_entries : list (string * cval) :=")
+    L.append("Definition template_entries : list (text * cval) := Eval vm_compute in")
     L.append("  " + coq_list([f"({coq_string(k)}, {v})" for k, v in template]) + ".")
     L.append("")
     L.append("(* [default: X] notes of the --help texts of struct Opt (informative; strings as written) *)")
-    L.append("Definition opt_help_defaults : list (string * string) :=")
+    L.append("Definition opt_help_defaults : list (text * text) := Eval vm_compute in")
     L.append("  " + coq_list([f"({coq_string(k)}, {coq_string(v)})" for k, v in opt_doc_defaults(CONFIG_RS)]) + ".")
     L.append("")
     L.append("(* ---- teos-cli: cli_config.rs ---- *)")
